@@ -3,6 +3,7 @@ package main
 import (
 	"bytes"
 	"fmt"
+	abci "github.com/tendermint/tendermint/abci/types"
 	"math/big"
 	"reflect"
 	"sort"
@@ -282,6 +283,45 @@ func (oracleC15) Invariant(x *OCtx, v *View, m *Mon) []Violation {
 		sort.Strings(got)
 		if !reflect.DeepEqual(want, got) {
 			add("listing-by-service-is-exact", n, fmt.Sprintf("bindings of service %s: listed %v, stored %v", n, got, want))
+		}
+		// the same listing as users ask for it: the gRPC query and the legacy querier
+		var wantStr []string
+		for _, br := range v.Bindings {
+			if br.B.ServiceName == n {
+				wantStr = append(wantStr, br.B.String())
+			}
+		}
+		sort.Strings(wantStr)
+		if p, _ := tryPanic(func() {
+			if r, err := x.Rig.sk.Bindings(sdk.WrapSDKContext(ctx), &st.QueryBindingsRequest{ServiceName: n}); err == nil {
+				var gs []string
+				for _, b := range r.ServiceBindings {
+					gs = append(gs, b.String())
+				}
+				sort.Strings(gs)
+				x.Wit("C15:listing-by-grpc-query-compared")
+				if !reflect.DeepEqual(wantStr, gs) {
+					add("listing-by-service-is-exact", n+"/grpc", fmt.Sprintf("gRPC bindings query of service %s lists %d bindings %v, stored %v", n, len(gs), gs, wantStr))
+				}
+			}
+			if data, err := encCfg.Amino.MarshalJSON(st.QueryBindingsParams{ServiceName: n}); err == nil {
+				if bz, err := x.Rig.querier(ctx, []string{st.QueryBindings}, abci.RequestQuery{Data: data}); err == nil {
+					var bs []st.ServiceBinding
+					if encCfg.Amino.UnmarshalJSON(bz, &bs) == nil {
+						var ls []string
+						for _, b := range bs {
+							ls = append(ls, b.String())
+						}
+						sort.Strings(ls)
+						x.Wit("C15:listing-by-legacy-query-compared")
+						if !reflect.DeepEqual(wantStr, ls) {
+							add("listing-by-service-is-exact", n+"/legacy", fmt.Sprintf("legacy bindings query of service %s lists %v, stored %v", n, ls, wantStr))
+						}
+					}
+				}
+			}
+		}); p != "" {
+			add("listing-by-service-is-exact", n+"/query-panics", "bindings query of service "+n+" panics: "+p)
 		}
 		for _, o := range []sdk.AccAddress{O1, O2} {
 			var wantO []string
